@@ -93,7 +93,7 @@ func (sw *simWriter) write(p []byte) (n int, err error) {
 			if !w.quiet {
 				w.emit(scen.Event{T: task, K: "hang", Op: w.curOp[task], Ph: w.curPh[task], W: sw.id, A: attempt})
 			}
-			if w.sch != nil {
+			if w.inTasks() {
 				w.sch.hang() // does not return
 			}
 			fk = ""
